@@ -106,3 +106,24 @@ def vtt_strict(hd: list[int], rest: list[int], frac: list[int]) -> str:
     if v > 3600000000 or v < 5000000:
         return "timing error not raised"
     return r
+
+
+def vtt_strict_shift(hd: list[int], rest: list[int], frac: list[int], shift: int) -> str:
+    """
+    pre: _pre(hd, 2, rest, frac) and 0 <= shift <= 100000000
+    post: _ == ""
+    """
+    # strict timing checks together with a time shift: the checks are about the document's own order (a shift moves
+    # every instant alike), the returned instants are the shifted ones
+    v = _val(hd, rest, frac)
+    doc = ("WEBVTT\n\n00:00:05.000 --> 00:00:06.000\nfoo\n\n" + _stamp(hd, rest, frac) + " --> 01:00:00.000\nbaz\n")
+    sh = shift * 1000
+    bad = v > 3600000000 or v < 5000000
+    try:
+        r = _check(WebVTTReader(ignore_timing_errors=False, time_shift_milliseconds=shift), doc,
+                   [(5000000 + sh, 6000000 + sh, "foo"), (v + sh, 3600000000 + sh, "baz")])
+    except CaptionReadError:
+        return "" if bad else "spurious timing error on a well-ordered document when a time shift is configured"
+    if bad:
+        return "timing error not raised"
+    return r
